@@ -136,7 +136,7 @@ Section S.
     specialize (Hgo (af_coeffs f) O a [] Hbox eq_refl).
     match goal with |- context [let (a1, changed) := ?g in _] => destruct g as [a1 changed] end.
     cbn [fst] in Hgo.
-    destruct (b_intersection (a_tol a1) (last prefixes b_unbounded) (required_bounds c)); cbn [fst];
+    destruct (b_intersection (a_ties a1) (a_tol a1) (last prefixes b_unbounded) (required_bounds c)); cbn [fst];
       [exact Hgo|apply box_sound_mark_infeasible; exact Hgo].
   Qed.
 
